@@ -1,6 +1,7 @@
 package hash
 
 import (
+	"crypto/sha1"
 	"fmt"
 	"sort"
 	"strings"
@@ -243,7 +244,18 @@ func (s *chSys) canon() string {
 		parts = append(parts, fmt.Sprintf("%s=%d", n, r))
 	}
 	sort.Strings(parts)
-	return strings.Join(parts, ",")
+	// the real ring: virtual-node hashes with their owners, and the node index
+	var ring []string
+	for _, k := range s.h.keys {
+		ring = append(ring, fmt.Sprintf("%x:%v", k, s.h.ring[k]))
+	}
+	var nodes []string
+	for n := range s.h.nodes {
+		nodes = append(nodes, n)
+	}
+	sort.Strings(nodes)
+	sum := sha1.Sum([]byte(strings.Join(ring, ";")))
+	return strings.Join(parts, ",") + fmt.Sprintf("|ring=%d:%x|nodes=%v", len(s.h.keys), sum[:6], nodes)
 }
 
 func TestVerifConsistentHash(t *testing.T) {
